@@ -7,6 +7,9 @@ CONSTANTS
   ProbeBlocks <- MCProbeBlocks
   Variant = "actswap"
   MaxCalls = 2
+  MaxEdits = 0
+  EditCoefs <- MCEditCoefs
+  EditNames <- MCEditNames
 INVARIANT TypeOK
 INVARIANT RouteRefines
 INVARIANT StateRefines
